@@ -612,6 +612,11 @@ class ExprMixin:
         if a.ty == T.Real or b.ty == T.Real or isinstance(op, ast.Div):
             return self.float_binop(op, a, b, st, node)
         x, y = self.to_int(a, st, node), self.to_int(b, st, node)
+        if isinstance(op, ast.Pow):
+            xs, ys = z3.simplify(x), z3.simplify(y)
+            if z3.is_int_value(xs) and z3.is_int_value(ys) and ys.as_long() >= 0:
+                return SV(z3.IntVal(xs.as_long() ** ys.as_long()), T.Int)
+            raise Unsupported("** with non-constant operands")
         if isinstance(op, ast.Add):
             return SV(x + y, T.Int)
         if isinstance(op, ast.Sub):
@@ -800,6 +805,10 @@ class ExprMixin:
         raise Unsupported(f"attribute {ast.unparse(node)} of {getattr(base, 'ty', base)}")
 
     def ev_JoinedStr(self, node, st, want):
+        if self.fstring_model is not None:
+            r = self.fstring_model(self, node, st, want)
+            if r is not None:
+                return r
         # error-message formatting is dropped by the extraction: an opaque string
         return fresh(T.U("Msg"), "msg")
 
